@@ -448,7 +448,16 @@ func (e *Engine) runPath(sol *Solver, in *Instance, prefix []Decision) (res *Pat
 			res.Inconclusive = append(res.Inconclusive, "uncaught panic reached the harness top: "+panicString(x.v)+" ["+decisionsString(p.decs)+"]")
 		case deadlock:
 			res.Ended = "deadlock"
-			res.Inconclusive = append(res.Inconclusive, "deadlock outside verif.NoDeadlock scope: "+x.msg)
+			if p.deadlockLabel != "" {
+				// "waiting never wedges": every goroutine blocked is a violation of the harness' liveness assertion
+				p.note("deadlock: %s", x.msg)
+				func() {
+					defer func() { recover() }()
+					p.check(p.ctx.F, p.deadlockLabel, "deadlock")
+				}()
+			} else {
+				res.Inconclusive = append(res.Inconclusive, "deadlock outside verif.NoDeadlock scope: "+x.msg)
+			}
 		case unsupported:
 			res.Ended = "unsupported"
 			res.Inconclusive = append(res.Inconclusive, "UNSUPPORTED: "+x.msg)
